@@ -133,6 +133,48 @@ var ctorTable = []ctorEntry{
 	{"NewFeaturesReply", func() util.Message { return of.NewFeaturesReply() }},
 	{"NewCTStateMatchField", func() util.Message { return of.NewCTStateMatchField(of.NewCTStates()) }},
 	{"NewHelloElemVersionBitmap", func() util.Message { return common.NewHelloElemVersionBitmap() }},
+	// values written as struct literals over the exported fields (no constructor ran, unexported padding buffers are
+	// nil): the only way to make, for instance, a clear-actions instruction without re-typing another one
+	{"literal:InstrActions(clear)", func() util.Message {
+		return &of.InstrActions{InstrHeader: of.InstrHeader{Type: of.InstrType_CLEAR_ACTIONS, Length: 8}}
+	}},
+	{"literal:InstrActions(write)", func() util.Message {
+		a, b := of.NewActionOutput(7), of.NewActionGroup(9)
+		return &of.InstrActions{InstrHeader: of.InstrHeader{Type: of.InstrType_WRITE_ACTIONS, Length: 8 + a.Len() + b.Len()}, Actions: []of.Action{a, b}}
+	}},
+	{"literal:InstrGotoTable", func() util.Message {
+		return &of.InstrGotoTable{InstrHeader: of.InstrHeader{Type: of.InstrType_GOTO_TABLE, Length: 8}, TableId: 9}
+	}},
+	{"literal:InstrWriteMetadata", func() util.Message {
+		return &of.InstrWriteMetadata{InstrHeader: of.InstrHeader{Type: of.InstrType_WRITE_METADATA, Length: 24}, Metadata: 0x1122334455667788, MetadataMask: 0xff00ff00ff00ff00}
+	}},
+	{"literal:ActionOutput", func() util.Message {
+		return &of.ActionOutput{ActionHeader: of.ActionHeader{Type: of.ActionType_Output, Length: 16}, Port: 3, MaxLen: 0xffe5}
+	}},
+	{"literal:ActionGroup", func() util.Message {
+		return &of.ActionGroup{ActionHeader: of.ActionHeader{Type: of.ActionType_Group, Length: 8}, GroupId: 5}
+	}},
+	{"literal:ActionSetqueue", func() util.Message {
+		return &of.ActionSetqueue{ActionHeader: of.ActionHeader{Type: of.ActionType_SetQueue, Length: 8}, QueueId: 6}
+	}},
+	{"literal:ActionPush", func() util.Message {
+		return &of.ActionPush{ActionHeader: of.ActionHeader{Type: of.ActionType_PushVlan, Length: 8}, EtherType: 0x88a8}
+	}},
+	{"literal:ActionDecNwTtl", func() util.Message {
+		return &of.ActionDecNwTtl{ActionHeader: of.ActionHeader{Type: of.ActionType_DecNwTtl, Length: 8}}
+	}},
+	{"literal:FlowMod+literal-instructions", func() util.Message {
+		f := of.NewFlowMod()
+		f.AddInstruction(&of.InstrActions{InstrHeader: of.InstrHeader{Type: of.InstrType_CLEAR_ACTIONS, Length: 8}})
+		a := &of.ActionOutput{ActionHeader: of.ActionHeader{Type: of.ActionType_Output, Length: 16}, Port: 4, MaxLen: 128}
+		f.AddInstruction(&of.InstrActions{InstrHeader: of.InstrHeader{Type: of.InstrType_APPLY_ACTIONS, Length: 24}, Actions: []of.Action{a}})
+		f.AddInstruction(&of.InstrGotoTable{InstrHeader: of.InstrHeader{Type: of.InstrType_GOTO_TABLE, Length: 8}, TableId: 2})
+		return f
+	}},
+	{"literal:Bucket", func() util.Message {
+		a := &of.ActionGroup{ActionHeader: of.ActionHeader{Type: of.ActionType_Group, Length: 8}, GroupId: 11}
+		return &of.Bucket{Length: 24, Weight: 2, WatchPort: of.P_ANY, WatchGroup: of.OFPG_ANY, Actions: []of.Action{a}}
+	}},
 }
 
 // ctorByName returns the constructor thunk; transaction ids drawn from the process-wide generator are replaced by a
